@@ -1727,7 +1727,7 @@ std::ostream& expression_t::print(std::ostream& os, bool old) const
     case SPAWN: os << "SPAWN"; break;
     case EXIT: os << "EXIT"; break;
     case NUMOF:
-        os << "numof(";
+        os << "numOf(";
         get(0).print(os, old) << ")";
         break;
     case MITL_FORALL:
